@@ -151,12 +151,13 @@ def run_identify(ctx, rng):
             ctx.not_judged("oversampled class: cond(O_ref) > 1e9")
         if len(skip) == 2:
             return
-        tolm = {mm: max(1e-8, 1e4 * eps_ * condm[mm], 1e3 * eps_ * condO) for mm in condm}
+        tolm = {mm: max(1e-8, 1e5 * eps_ * condm[mm], 1e3 * eps_ * condO) for mm in condm}
     else:
         if cond > 1e7:
             ctx.not_judged("cond(H) > 1e7")
             return
-        tolm = {mm: max(1e-8, 1e4 * eps_ * cond, 1e3 * eps_ * min(condO, 1e9)) for mm in condm}
+        # (1e5: a thorough sweep met 1.02e4 eps cond(H) on the unchanged tree; the breaking changes of section 5 are orders of magnitude above)
+        tolm = {mm: max(1e-8, 1e5 * eps_ * cond, 1e3 * eps_ * min(condO, 1e9)) for mm in condm}
     res = {}
     for meth, cls in (("cov_mm", SSIcov_MS), ("dat", SSIdat_MS)):
         if meth in skip:
